@@ -40,7 +40,7 @@ import (
 )
 
 func freeAddr() string {
-	ln, err := net.Listen("tcp", "127.0.0.1:0")
+	ln, err := hx.Listen("tcp", "127.0.0.1:0")
 	if err != nil {
 		panic(err)
 	}
@@ -81,7 +81,6 @@ func TestC18Shutdown(t *testing.T) {
 	cert := selfSigned()
 
 	// upstreams shared by all cases
-	var httpDelay atomic.Int64
 	httpUp := httptest.NewServer(http.HandlerFunc(func(w http.ResponseWriter, r *http.Request) {
 		d := time.Duration(0)
 		fmt.Sscan(r.URL.Query().Get("d"), (*int64)(&d))
@@ -97,8 +96,7 @@ func TestC18Shutdown(t *testing.T) {
 		io.WriteString(w, "http-upstream-done")
 	}))
 	// not closed: Close() would wait for requests that never end by design
-	_ = httpDelay
-	tcpUp, err := net.Listen("tcp", "127.0.0.1:0")
+	tcpUp, err := hx.Listen("tcp", "127.0.0.1:0")
 	if err != nil {
 		t.Fatal(err)
 	}
